@@ -54,6 +54,27 @@ Definition select_arr (a : array) (I : list nat) : array := (fst a, select (-1)%
 (* dtype of the result = dtype of the array that stayed in `atoms` *)
 Definition reinsert_arr (kept new : array) (I : list nat) : array := (fst kept, reinsert (-1)%Z (snd kept) (snd new) I).
 
+(* ---------------- connected components of the within-cutoff pair list ----------------
+   (the library asks scipy/networkx; the model merges labels edge by edge — naive union — and groups the atoms by label,
+   enumerating the groups by their smallest member) *)
+Definition relabel (a b : nat) (lab : list nat) : list nat := map (fun x => if x =? b then a else x) lab.
+Definition merge (lab : list nat) (e : nat * nat) : list nat := relabel (nth (fst e) lab 0) (nth (snd e) lab 0) lab.
+Definition comp_labels (n : nat) (edges : list (nat * nat)) : list nat := fold_left merge edges (seq 0 n).
+Definition comp_of (n : nat) (lab : list nat) (i : nat) : list nat := filter (fun j => nth j lab 0 =? nth i lab 0) (seq 0 n).
+Definition is_rep (lab : list nat) (i : nat) : bool := forallb (fun j => negb (nth j lab 0 =? nth i lab 0)) (seq 0 i).
+Definition reps (n : nat) (lab : list nat) : list nat := filter (is_rep lab) (seq 0 n).
+Definition group (n : nat) (lab : list nat) : list (list nat) := map (comp_of n lab) (reps n lab).
+Definition components (n : nat) (edges : list (nat * nat)) : list (list nat) := group n (comp_labels n edges).
+
+(* ---------- specification: the equivalence closure of the edge relation ---------- *)
+Inductive conn (E : list (nat * nat)) : nat -> nat -> Prop :=
+| c_refl i : conn E i i
+| c_edge u v : In (u, v) E -> conn E u v
+| c_sym i j : conn E i j -> conn E j i
+| c_trans i k j : conn E i k -> conn E k j -> conn E i j.
+
+Definition bounded (n : nat) (edges : list (nat * nat)) : Prop := forall u v, In (u, v) edges -> u < n /\ v < n.
+
 (* ---------------- search_molecules' label glue ----------------
    components come from networkx (oracle); label n = position of the component in the enumeration;
    sequential assignment molecules[component] = n, for admitted sizes only *)
@@ -89,3 +110,6 @@ Definition c19_reinsert_case (x : list array * list nat) : list Z :=
                      ++ enc_arr (reinsert_arr (delete_arr a idx) (select_arr a idx) idx)) arrs.
 Definition c19_labels_case (x : list Z * nat * nat * list (list nat)) : list Z :=
   let '(default, lo, hi, comps) := x in canon (labels default lo hi comps).
+(* from the pair list: components by the verified merging algorithm, then the label glue *)
+Definition c19_molecules_case (x : list Z * nat * nat * list (nat * nat)) : list Z :=
+  let '(default, lo, hi, edges) := x in canon (labels default lo hi (components (length default) edges)).
